@@ -246,7 +246,11 @@ func (n *trieNode) containsIP(ip net.IP, depth uint64) bool {
 	}
 	if n.bitmap != nil {
 		last := ip[len(ip)-1]
-		return n.bitmap.contains(last)
+		if n.bitmap.contains(last) {
+			return true
+		}
+		// Not one of the individual addresses: prefixes longer than the bitmap depth but shorter than a
+		// full address (/25../31, /121../127) live in the children of this node.
 	}
 	b := getBitAt(ip, depth)
 	next := n.children[b]
